@@ -123,6 +123,136 @@ theorem undelimited_never_parses (r : Req) (a : App) (tail : Bytes) (wf : WFApp 
   · rw [h.2] at hd; exact absurd hd (by decide)
   · exact hd h.1
 
+/-- C18 across idle time: once the connection never times out (tymeout 0) no silence of any length — between requests or
+while a slow app answers — changes anything: the exchange is exactly the untimed one -/
+theorem never_reaped_when_tymeout_zero (l : List (Req × App × Pace)) :
+    serveTimed 0 l = some (serve (l.map (fun x => (x.1, x.2.1)))) := by
+  induction l with
+  | nil => rfl
+  | cons x l ih =>
+    obtain ⟨r, a, p⟩ := x
+    simp only [serveTimed, reaped, bne_self_eq_false, Bool.false_and, Bool.false_eq_true, ↓reduceIte, ite_self, List.map_cons, serve]
+    by_cases hp : persisted r = true
+    · simp [hp, ih]
+    · simp [hp]
+
+/-- … and a connection whose FIRST request is persistent (HTTP/1.1 without `close`, or HTTP/1.0 with keep-alive) and arrives
+before the server's idle timeout `T` is never closed by the idle timeout afterwards, whatever the gaps and stalls: the server
+still closes after a response exactly when the request was not persistent (`close_iff_not_persisted` applies to the result) -/
+theorem persistent_connection_outlives_idle (T : Nat) (r : Req) (a : App) (p : Pace) (rest : List (Req × App × Pace))
+    (hp : persisted r = true) (hg : reaped T p.gap = false) :
+    serveTimed T ((r, a, p) :: rest) = some (serve (((r, a, p) :: rest).map (fun x => (x.1, x.2.1)))) := by
+  have h0 : reaped 0 p.stall = false := by simp [reaped]
+  simp only [serveTimed, hg, Bool.false_eq_true, ↓reduceIte, hp, h0,
+    never_reaped_when_tymeout_zero rest, Option.map_some, List.map_cons, serve]
+
+/-- a non-persistent first request answered by an app that stalls for the timeout IS dropped (C12's rule; why long stalls are
+generated only once the connection is persistent) -/
+theorem stalled_first_response_is_reaped :
+    serveTimed 5 [(⟨0, none⟩, ⟨lit "200 OK", [], none, [lit "a"], []⟩, ⟨0, 6⟩)] = none := by decide
+
+/-! ### framing headers given by the application, and applications that raise `HTTPError` -/
+
+/-- an application that lists `Transfer-Encoding: chunked` ITSELF (name and value in any case) for an HTTP/1.1 request, with no
+declared length, is chunked exactly like one that does not: the bytes after the head are the chunk stream of its non-empty
+pieces followed by the terminating chunk — so the next pipelined response starts where this one ends -/
+theorem app_listed_chunked_is_chunked (r : Req) (a : App) (hv : r.ver ≠ 0) (hc : a.clen = none)
+    (hte : (getKey (lit "transfer-encoding") a.headers).map lower = some (lit "chunked")) :
+    respond r a = head r a ++ ((nonEmpties (a.pieces ++ [a.retval])).flatMap packChunk ++ packChunk []) := by
+  have hch : chunkedOf r a = true := by
+    unfold chunkedOf chunkable startHeaders
+    simp [hc, hte, hv]
+  rw [respond_eq, payload_chunked r a hc hch]
+
+/-- apps that do not raise: `serveX` is `serve` -/
+theorem serveX_no_error (l : List (Req × App)) : serveX (l.map (fun x => (x.1, ⟨x.2, none⟩))) = serve l := by
+  induction l with
+  | nil => rfl
+  | cons x l ih =>
+    obtain ⟨r, a⟩ := x
+    simp only [List.map_cons, serveX, serve, respondX, ih]
+
+/-- the Content-Length of an error response is ALWAYS the length of the rendered text, whatever headers the error carries
+(a `Content-Length` among them is overwritten) -/
+theorem error_length_is_the_servers (e : Err) :
+    getKey (lit "content-length") (errHeaders e) = some (toDec (renderErr e).length) ∧
+    ((errHeaders e).filter (fun h => lower h.1 == lit "content-length")).length = 1 := by
+  unfold errHeaders
+  by_cases h : hasKey (lit "content-length") (errHs1 e) = true
+  · simp only [h, ↓reduceIte]
+    generalize errHs1 e = hs at h
+    induction hs with
+    | nil => simp [hasKey] at h
+    | cons x hs ih =>
+      by_cases hx : (lower x.1 == lit "content-length") = true
+      · have hl : lower (lit "content-length") = lit "content-length" := by decide
+        have hnil : List.filter (fun a => lower a.1 == lit "content-length" && lower a.1 != lit "content-length") hs = [] := by
+          apply List.filter_eq_nil_iff.mpr
+          intro a _
+          simp [bne]
+        constructor
+        · simp [setKey, hx, getKey, hl]
+        · simp only [setKey, hx, ↓reduceIte, List.filter_cons, hl, beq_self_eq_true, List.filter_filter, List.length_cons]
+          rw [show (fun a : Bytes × Bytes => lower a.1 == lit "content-length" && lower a.1 != lit "content-length") = (fun a => lower a.1 == lit "content-length" && lower a.1 != lit "content-length") from rfl, hnil]
+          rfl
+      · have hh : hasKey (lit "content-length") hs = true := by
+          simpa [hasKey, hx] using h
+        simp only [setKey, hx, Bool.false_eq_true, ↓reduceIte, getKey, List.filter_cons]
+        exact ih hh
+  · have h' : hasKey (lit "content-length") (errHs1 e) = false := by simpa using h
+    simp only [h', Bool.false_eq_true, ↓reduceIte]
+    rw [getKey_append, getKey_of_not_hasKey _ _ h']
+    have hl : lower (lit "Content-Length") = lit "content-length" := by decide
+    refine ⟨by simp [getKey, hl], ?_⟩
+    rw [List.filter_append]
+    have : List.filter (fun h => lower h.1 == lit "content-length") (errHs1 e) = [] := by
+      apply List.filter_eq_nil_iff.mpr
+      intro a ha
+      have := h'
+      simp only [hasKey, List.any_eq_false] at this
+      simpa using this a ha
+    rw [this]
+    simp [List.filter, hl]
+
+/-- an error raised before anything was sent, carrying no Content-Length of its own, is answered exactly as an application
+would answer that starts with the error's status and headers, declares the length of the rendered text and yields it -/
+theorem error_response_as_app (r : Req) (e : Err) (h : hasKey (lit "content-length") e.headers = false) :
+    respondErr e = respond r (errApp e) := by
+  have h1 : hasKey (lit "content-length") (errHs1 e) = false := by
+    unfold errHs1
+    rw [hasKey_opt _ _ _ _ (by decide)]
+    exact h
+  have hch : chunkedOf r (errApp e) = false := chunkedOf_clen r (errApp e) _ rfl
+  rw [respond_eq]
+  unfold respondErr errHeaders head headLines finalHeaders payload
+  simp only [h1, Bool.false_eq_true, ↓reduceIte, hch]
+  simp [errApp, startHeaders, appBody]
+
+/-- … and therefore parses back, whatever follows it on the wire, to the error's status line, its headers and the rendered
+text as body, and the parser stops exactly at its end: an error response is delimited like any other -/
+theorem error_response_parses_back (r : Req) (e : Err) (tail : Bytes) (h : hasKey (lit "content-length") e.headers = false)
+    (wf : WFApp (errApp e)) (fuel : Nat) (hf : (finalHeaders r (errApp e)).length + 4 ≤ fuel) :
+    parseResp fuel (respondErr e ++ tail) =
+      some (⟨Gen.responseVersion ++ [32] ++ (toDec e.status ++ [32] ++ errReason e), wireHeaders r (errApp e), renderErr e⟩, tail) := by
+  rw [error_response_as_app r e h]
+  have := parseResp_respond r (errApp e) tail wf (Or.inl rfl) fuel (by simpa [errApp] using hf)
+  rw [this]
+  simp [errApp, expectedBody, appBody]
+
+/-- once the head is out an error only ends the response: what the client sees is the response of the same application cut off
+after the items it had yielded, with no return value -/
+theorem error_after_head_ends_response (r : Req) (a : App) (k : Nat) (e : Err)
+    (h : ((a.pieces.take k).all (·.isEmpty)) = false) :
+    respondX r ⟨a, some (k, e)⟩ = respond r { a with pieces := a.pieces.take k, retval := [] } := by
+  simp [respondX, h]
+
+set_option maxRecDepth 200000 in
+/-- non-vacuity / regression witness: an error that carries `Content-Length: 999` is answered with the length of its text -/
+theorem error_content_length_witness :
+    respondX ⟨1, none⟩ ⟨⟨lit "200 OK", [], none, [], []⟩, some (0, ⟨404, [], lit "T", lit "d", none, [(lit "Content-Length", lit "999")]⟩)⟩ =
+      lit "HTTP/1.1 404 Not Found\r\nContent-Length: 18\r\nContent-Type: text/plain\r\nServer: Ioflo WSGI Server\r\nDate: Thu, 01 Jan 1970 00:00:00 GMT\r\n\r\n404 Not Found\nT\nd\n" := by
+  decide +kernel
+
 /-! non-vacuity: a concrete well-formed app with headers, empty pieces and a return value -/
 example : WFApp ⟨lit "404 Not Found", [(lit "Set-Cookie", lit "a=1"), (lit "x-b", lit "")], none, [lit "ab", [], lit "cd"], lit "t"⟩ :=
   ⟨by decide, by decide, by decide, by decide, by decide, by intro L h; cases h⟩
